@@ -348,4 +348,29 @@ def runCmd (args : List String) : String :=
             (let w := Conc.Own.runOps 1 (if parked then [.newHandle, .park] else [.newHandle])
              [s!"RES {if r == .ok then "OK" else "ERR"} closes={w.closes} strong={w.flag} late={if parked then (if Conc.Own.sendOk w then "OK" else "ERR") else "NONE"}"]))
 
+/-- `RUNBIG <n>`: the harness plays readies from the addresses `1..n` (n > 65536) before the part of the history that matters. A
+ready from an address that owns no flow causes no callback and leaves every other address as it was
+(`C09.spec_ready_discards_only_own`, `C09.spec_other_addresses_untouched`, lifted to the runtime by `C02.history_refines_flat_map`), so
+the callbacks of that history are those of the history WITHOUT the readies of the addresses `2..n-1` - which is what the model runs. -/
+def runBig (args : List String) : String :=
+  match args with
+  | [n] =>
+    match n.toNat? with
+    | some k =>
+      if k < 2 ∨ k > 200000 then "BADARG" else
+      let toks := "ALG - 1 PROGS - NF - OR - SCRIPT".splitOn " " ++
+        ["1:RD.1", s!"{k}:RD.1", "1:CR.1.10.1460.1.2.3.4.-", s!"{k}:CR.1.10.1460.1.2.3.4.-", "1:MS.1.5.7;8", s!"{k}:MS.1.5.9;10",
+         s!"{k}:RD.1", "1:MS.1.5.11", s!"{k}:MS.1.5.12", "1:MS.1.5.-"]
+      let parts := (runCmd toks).splitOn " | "
+      joinWith " | " (parts.filterMap fun p =>
+        match p.splitOn " " with
+        | "NF" :: _ => some p
+        | "RP" :: _ => some p
+        | "CL" :: _ => some p
+        | "DR" :: _ => some p
+        | "RES" :: r :: _ => some s!"RES {r}"
+        | _ => none)
+    | none => "BADARG"
+  | _ => "BADARG"
+
 end Portus.Driver
